@@ -167,12 +167,11 @@ Definition all_unimods (c : lattice_cfg) : list Z :=
   let joint := match l_junimod c with Some cs => concat (map fst cs) | None => [] end in
   map (fun p => if zmem (Z.of_nat (fst p)) joint then 1 else snd p) (combine (seq 0 n) base).
 
-Definition joint_dims_indexable (c : lattice_cfg) : bool :=
-  let n := zlen (l_sizes c) in
-  match l_junimod c with
-  | Some cs => all_b (fun cst => all_b (fun d => (- n <=? d) && (d <? n)) (fst cst)) cs
-  | None => true
-  end.
+(* (joint_dims_indexable - "every joint-unimodality dimension can index a list of
+   length n, negative indices included" - was needed while the layer built its
+   initialiser BEFORE verify_hyperparameters; since /repo commit de97195 the
+   joint unimodalities are verified first (junimod_ok: 0 <= d < n), so the
+   definition was removed.) *)
 
 Definition accepts_lattice_layer (c : lattice_cfg) : bool :=
   accepts_lattice c &&
@@ -180,6 +179,17 @@ Definition accepts_lattice_layer (c : lattice_cfg) : bool :=
    (let au := Some (all_unimods c) in
     unimod_sizes_ok au (l_sizes c) && mono_unimod_disjoint (l_monos c) au &&
     (let (a, b) := init_range (l_omin c) (l_omax c) in qlt_b a b))).
+
+(* units of the Lattice LAYER: build() calls add_weight(shape=[prod(sizes),
+   units]).  TensorFlow raises ValueError ("Dimension -1 must be >= 0") for a
+   negative dimension.  With units = 0 the library's LinearInitializer still
+   returns a (prod(sizes), 1) value (lattice_lib.linear_initializer tiles its
+   one column only `if units > 1`), which does not fit the (prod(sizes), 0) variable:
+   ValueError; the Keras random_uniform of the joint-unimodality fall-back
+   does produce a (prod(sizes), 0) value, so that configuration is built. *)
+Definition accepts_lattice_layer_units (c : lattice_cfg) (units : Z) : bool :=
+  accepts_lattice_layer c && (0 <=? units) &&
+  (joint_covers_all (zlen (l_sizes c)) (l_junimod c) || (1 <=? units)).
 
 (* ------------------------------------------------------------------------- *)
 (* linear_lib.verify_hyperparameters (as called by LinearConstraints)          *)
@@ -256,6 +266,13 @@ Definition accepts_linear (c : linear_cfg) : bool :=
   end &&
   dominance_dims_disjoint (n_mdom c) (n_rdom c).
 
+(* The Linear LAYER: build() calls add_weight(shape=[num_input_dims, units]);
+   a negative dimension is a TensorFlow ValueError, 0 is accepted (an empty
+   kernel).  verify_hyperparameters has no test of its own for either. *)
+Definition accepts_linear_layer (c : linear_cfg) (units : Z) : bool :=
+  accepts_linear c && (0 <=? units) &&
+  match n_num_input_dims c with Some n => 0 <=? n | None => true end.
+
 (* ------------------------------------------------------------------------- *)
 (* pwl_calibration_lib.verify_hyperparameters + PWLCalibration.__init__        *)
 (* ------------------------------------------------------------------------- *)
@@ -296,7 +313,18 @@ Definition accepts_pwl (c : pwl_cfg) : bool :=
   (negb (p_layer c) ||
    (negb (p_missing_in c && negb (p_impute c)) && negb (p_missing_out c && negb (p_impute c)) &&
     match p_mono c with None => false | Some _ => true end &&
-    negb (negb (p_convexity_is_none_spelling c) && p_learned c))).
+    negb (negb (p_convexity_is_none_spelling c) && p_learned c) &&
+    (* "'convexity' can't be None" (since /repo commit adb1223; the standalone
+       PWLCalibrationConstraints still takes None) *)
+    match p_convex c with None => false | Some _ => true end)).
+
+(* units of the PWLCalibration LAYER: add_weight(shape=[num_weights, units]):
+   negative: ValueError.  units = 0: build() raises InvalidArgumentError (the
+   initialiser concatenates a (1, 1) bias row with (k-1, 0) heights) - not a
+   ValueError; the decision is "reject" and the harness reports the exception
+   class by itself. *)
+Definition accepts_pwl_layer (c : pwl_cfg) (units : Z) : bool :=
+  accepts_pwl c && (negb (p_layer c) || (1 <=? units)).
 
 (* ------------------------------------------------------------------------- *)
 (* categorical_calibration_lib.verify_hyperparameters                          *)
@@ -333,6 +361,13 @@ Definition accepts_categorical (c : cat_cfg) : bool :=
                       end) ps &&
       match c_buckets c with Some _ => has_source ps | None => true end
   end.
+
+(* The CategoricalCalibration LAYER: add_weight(shape=[num_buckets, units]):
+   a negative num_buckets or units is a TensorFlow ValueError; 0 is accepted
+   (finding D48 for num_buckets = 0). *)
+Definition accepts_categorical_layer (c : cat_cfg) (units : Z) : bool :=
+  accepts_categorical c && (0 <=? units) &&
+  match c_buckets c with Some n => 0 <=? n | None => true end.
 
 (* ------------------------------------------------------------------------- *)
 (* kronecker_factored_lattice_lib.verify_hyperparameters                       *)
@@ -410,7 +445,8 @@ Definition accepts_pwl_regularizer (l1 l2 : amt) (is_cyclic : bool) : bool := tr
 (*        not None                                                             *)
 (*   (C6) kernel_regularizer truthy AND a list (a single [name, l1, l2] is     *)
 (*        wrapped): every entry has len 3, l1 is a float, l2 is a float.       *)
-(*        A TUPLE (name, l1, l2) is not inspected here.                        *)
+(*        A TUPLE is not inspected here: neither a single (name, l1, l2) nor   *)
+(*        a tuple OF regulariser tuples ((name, l1, l2), ...).                 *)
 (*   num_lattices, lattice_rank, num_terms, init_min/max, separate_outputs,    *)
 (*   average_outputs, avoid_intragroup_interaction, clip_inputs,               *)
 (*   monotonic_at_every_step, random_seed: stored, not checked.                *)
@@ -430,7 +466,10 @@ Definition accepts_pwl_regularizer (l1 l2 : amt) (is_cyclic : bool) : bool := tr
 (*        keras.initializers.get (unknown name: ValueError)                    *)
 (*   (B6) Lattice.__init__ on every regulariser tuple: unpacking needs 3       *)
 (*        entries, name.lower() in {'torsion','laplacian'}, per-dimension      *)
-(*        amounts match lattice_rank                                           *)
+(*        amounts match lattice_rank.  A tuple whose first element is a str is *)
+(*        ONE regulariser; any other tuple is iterated like a list (an empty   *)
+(*        tuple is falsy: no regulariser); an element that is not a tuple goes *)
+(*        to keras.regularizers.get (a list: ValueError)                       *)
 (*   'kronecker_factored':                                                     *)
 (*   (B7) exactly one of init_min / init_max given                             *)
 (*   (B8) kernel_initializer a KFL initialiser name or a Keras name            *)
@@ -454,7 +493,11 @@ Record reg_entry := mkReg {
   re_len : Z;               (* len(regularizer) *)
   re_name_known : bool;     (* name.lower() in ('torsion', 'laplacian') *)
   re_l1 : amt; re_l2 : amt }.
-Inductive rtl_regs := RegNone | RegTuple (e : reg_entry) | RegList (es : list reg_entry).
+Inductive rtl_regs :=
+| RegNone
+| RegTuple (e : reg_entry)             (* one (name, l1, l2) tuple (first element a str) *)
+| RegList (es : list reg_entry)        (* the list form (a single [name, l1, l2] already wrapped) *)
+| RegTuples (es : list reg_entry).     (* a tuple of regulariser tuples, the empty tuple included *)
 
 Record rtl_cfg := mkRTL {
   t_num : Z; t_rank : Z; t_size : Z;
@@ -475,7 +518,7 @@ Definition is_kfl (p : rtl_param) : bool := match p with ParamKfl => true | _ =>
 Definition is_linear_exact (i : init_id) : bool := match i with InitLinearExact => true | _ => false end.
 Definition regs_given (r : rtl_regs) : bool := match r with RegNone => false | _ => true end.
 Definition regs_entries (r : rtl_regs) : list reg_entry :=
-  match r with RegNone => [] | RegTuple e => [e] | RegList es => es end.
+  match r with RegNone => [] | RegTuple e => [e] | RegList es => es | RegTuples es => es end.
 
 Definition rtl_lib_reg_ok (e : reg_entry) : bool :=
   Z.eqb (re_len e) 3 && amt_is_float (re_l1 e) && amt_is_float (re_l2 e).
